@@ -27,7 +27,7 @@ def run(ctx, res):
     # decode -> encode: the encoder has to accept the whole range of the id field and write each group under its own id (C16's Q-mask / Q-pred /
     # Q-flow clauses, imported)
     import ssr, engine
-    view = engine.Filtered(res, {"Q-mask", "Q-pred", "Q-flow", "Q-1230", "K-adeq"})
+    view = engine.Filtered(res, {"Q-mask", "Q-cnt", "Q-pred", "Q-flow", "Q-1230", "K-adeq"})
     ssr.rule_count_fields(prog, view)
     ssr.rule_value_flow(prog, view)
     # the field models read "carrier kind + width" as unsigned / two's-complement / sign-magnitude values: that reading is decided here
